@@ -95,9 +95,6 @@ func (ex *Exec) recv(st *State, fr *Frame, ch ChanV, commaOk bool, t types.Type)
 		st.block("receive from nil channel")
 	}
 	cd := st.chanData(ch)
-	if cd.Env {
-		unsupported("receive on environment channel outside select (use a harness stub)")
-	}
 	if !cd.canRecv() {
 		st.block("receive on empty channel")
 	}
@@ -142,7 +139,8 @@ func (ex *Exec) execSelect(st *State, fr *Frame, in *ssa.Select) {
 			continue
 		}
 		cd := st.chanData(ch)
-		if cd.Env {
+		if cd.Env && s.Dir == types.SendOnly {
+			// the environment is always willing to receive
 			enabled = append(enabled, i)
 			continue
 		}
